@@ -78,6 +78,7 @@ def function_vectors(ctx):
         V.append({"fn": "common.df", "frame": f, "cs": cs})
         V.append({"fn": "common.typecode", "frame": f, "cs": cs})
         V.append({"fn": "common.hex2bin", "frame": f, "cs": cs})
+        V.append({"fn": "common.bin2hex_frame", "frame": f if k % 7 else [0] * (k % 5) + f[k % 5:]})
         V.append({"fn": "common.data", "text": text, "frame": f})
         if len(f) == 14:
             V.append({"fn": "common.allzeros", "frame": f if k % 5 else f[:4] + [0] * 7 + f[11:], "cs": cs})
